@@ -71,3 +71,39 @@ NOT_APPLICABLE = [
 for _p in ["C06", "C07", "C08", "C09", "C10", "C11", "C12", "C13", "C14", "C15", "C16", "C17", "C18", "C20"]:
     if _p not in PROPS:
         NOT_APPLICABLE.append({"property_id": _p, "reason": "check under construction in this round (engine exists in DESIGN.md, not yet registered); will be claimed"})
+
+PROPS.update({
+    "C06": e0("C06", "Extra ops: byzantine batches (up to 40 new entries, bad entries at head/middle/root, 17 invalid kinds), access-control policies on scratch clones, denied appends; codec drawn per run (default, link-encrypting, legacy pb). Oracle: error + observably unchanged iff a candidate is invalid/denied; every appended entry verifies and is admitted by a fresh permissive replica.",
+              expected_probes=["bad-entry-in-batch-over-8"]),
+    "C07": e0("C07", "Extra op: one signed field of an honest entry (in memory or decoded from its stored block) is corrupted (14 kinds); oracle: Verify fails."),
+    "C08": e0("C08", "Monitors on every append/publish: cid == hash of stored bytes, read-back field equality (binary payloads, link-encrypting codec), re-encode == same cid, manifest stable and read back; plus cross-process digest comparison and golden vectors.",
+              expected_probes=["readback-binary-payload"]),
+    "C15": e0("C15", "Extra op: Iterator on reached (forked) logs with generated option combinations, channel capacity 0..n, consumer paced by the event loop; oracle: model iterator.",
+              expected_probes=["iter-amount-zero", "iter-amount-beyond-range", "iter-related-bounds"]),
+    "C16": e0("C16", "Extra op: size-bounded merges (bound 0..total+3) on scratch clones of pairs of reached logs; oracle: last min(n,total) of the model linearisation, heads, Len.",
+              expected_probes=["bound-beyond-total", "bound-zero", "bounded-forked-result"]),
+    "C18": e0("C18", "Writers use a link key; monitors scan every appended block for identifiers of every known entry (binary, multihash, 6 multibase forms) and for IPLD links; reader nodes with same/different/no key.",
+              expected_probes=["linkkey-entry-with-links"]),
+})
+
+MANIFEST_TEXT.update({
+    "C06": dict(text="Seeded byzantine senders and corrupting links inject 17 kinds of invalid entries at chosen depths of batches of up to 40 new entries, under three codecs and four access-control policies; every merge is checked for error + observably unchanged state, or no error + exactly the verified union.",
+                design_ref="DESIGN.md 5 C06", note="Byzantine merges go into scratch clones of reached replicas; candidate set computed by the model's own difference walk. Race-detector coverage of the verification workers is part of C13.",
+                technique=DSIM + "E0 replica world with byzantine/tampering fault injection and all-or-nothing merge oracle"),
+    "C07": dict(text="Every honest entry shape the simulated worlds produce is corrupted in exactly one signed field (in flight or at rest) and must fail verification; one known finding (invalid-UTF-8 payload bytes) is listed in known_findings.txt.",
+                design_ref="DESIGN.md 5 C07", note="No schedule dimension: the simulator contributes the entry population, the fault generator, shrinking and replay.",
+                technique=DSIM + "tamper fault injection over entries produced by simulated histories, Verify oracle"),
+    "C08": dict(text="Always-on codec monitors in simulated histories (hash of stored bytes, field-exact read-back incl. binary payloads and encrypted links, canonical re-encoding, manifest round trip), cross-process digest agreement (map order, process identity) and golden interop vectors.",
+                design_ref="DESIGN.md 5 C08", note="Cross-process agreement is sampled over GOMAXPROCS 1/4/16 and fresh processes; golden vectors are the literals of test/entry_test.go.",
+                technique=DSIM + "store-seam monitors in E0 runs + same-tape cross-process digest comparison + golden vectors"),
+    "C15": dict(text="Iterator calls with generated bound/amount combinations on every kind of reached (forked) log, producer/consumer pacing by channel capacity, compared with a model iterator; no panic, error for unknown bounds, channel closed on success.",
+                design_ref="DESIGN.md 5 C15", note="Under comparator ties only order-independent facts are required; related multi-bounds may fall short of the amount by (bounds-1).",
+                technique=DSIM + "E0 reader tasks against a model iterator"),
+    "C16": dict(text="Size-bounded merges with every kind of bound (0, in range, beyond total) on scratch clones of pairs of reached logs, compared with the model's truncated linearisation.",
+                design_ref="DESIGN.md 5 C16", note="Under comparator ties the kept multiset of (time,id) keys is compared instead of the exact sequence.",
+                technique=DSIM + "E0 scratch-clone bounded merges against the model linearisation"),
+    "C18": dict(text="In worlds whose writers use a link key every appended block is scanned for identifiers of every known entry (binary, multihash, six multibase text forms) and for IPLD links; same-key readers must recover identical links, verify and merge; other-key and keyless readers must obtain none.",
+                design_ref="DESIGN.md 5 C18", note="Leak scan covers the identifier encodings listed; it cannot prove absence of an exotic encoding.",
+                technique=DSIM + "store-seam leak monitor + reader nodes with key configurations in E0"),
+})
+NOT_APPLICABLE[:] = [x for x in NOT_APPLICABLE if x["property_id"] not in PROPS]
